@@ -24,7 +24,7 @@ RULE = (
     "write/write_us; set_speed/backward/stop/coast/invert/ramp/run_for) with in-range, boundary values given as literals or as run-time expressions (a quarter of the arguments repeat exactly a value an earlier command of the script used) "
     "of analog_read() values, and getter reads (get_state, get_brightness, read, read_us, get_speed, get_applied_speed, is_inverted, get_mode) after "
     "state changes; each history is compiled once and run with 3 (quick) / 8 (thorough) tapes. Oracle (a): trace equality with the instrumented "
-    "host classes (per-pin signal, delays < 1 ms apart, motor duty +-1, getter values). Oracle (b), clamp mode with out-of-range arguments: every AW in "
+    "host classes (per-pin signal, delays < 1 ms apart, motor duty +-1, getter values). Oracle (b), clamp mode with out-of-range arguments (literals and run-time values, also inside flash patterns): the firmware must drive the pins exactly like the twin script whose out-of-range arguments are replaced by their documented clamp (literal, or min(max(x, lo), hi) for run-time values), and every AW in "
     "0..255, servo angle/pulse inside the configured bounds, |speed| <= 1. Non-trivial = >=2 operations on one device incl. a state-dependent one "
     "(toggle, fade, blink, invert, ramp) or a getter read after a state change. distinct = distinct script."
 )
@@ -53,6 +53,7 @@ class M:
         span = hi - lo + 1
         if self.clamp and self.draw(st.booleans()):
             self.lines.append(f"{v} = analog_read(\"A2\") * 3 - 1500")
+            return f"__CL({v};{lo};{hi})__" if kind == "int" else f"__CL({v};-1.0;1.0)__"
         elif kind == "int":
             self.lines.append(f"{v} = {lo} + analog_read(\"A2\") % {span}")
         else:  # speed in [-1, 1] as multiple of 0.01
@@ -70,7 +71,7 @@ class M:
 
     def _ival(self, lo, hi, small=False):
         if self.clamp and self.draw(st.integers(0, 2)) == 0:
-            return str(self.draw(st.sampled_from([-1, -300, hi + 1, hi + 500, 100000, -32768])))
+            return f"__CL({self.draw(st.sampled_from([-1, -300, hi + 1, hi + 45, hi + 500, 100000, -32768, lo - 1]))};{lo};{hi})__"
         mode = self.draw(st.sampled_from(["lit", "lit", "bound", "rt"]))
         if mode == "rt" and not small:
             return self.rt(lo, hi)
@@ -89,7 +90,7 @@ class M:
 
     def _speed(self):
         if self.clamp and self.draw(st.integers(0, 2)) == 0:
-            return str(self.draw(st.sampled_from([1.5, -1.5, 2, -7, 100.0])))
+            return f"__CL({self.draw(st.sampled_from([1.5, -1.5, 2, -7, 100.0, 1.01, -1.25]))};-1.0;1.0)__"
         mode = self.draw(st.sampled_from(["lit", "lit", "bound", "rt"]))
         if mode == "rt":
             return self.rt(0, 0, "speed")
@@ -143,8 +144,10 @@ class M:
                 step = self.draw(st.sampled_from([50, 64, 100, 127, 255, 90])) if not self.clamp else self.draw(st.sampled_from([0, -5, 50, 300]))
                 L.append(f"{n}.{o}({step}, {small(3)})"); self.state_dep += 1
             elif o == "flash_pattern":
-                pat = [self.draw(st.sampled_from([0, 1, 2, 128, 255, 7])) for _ in range(self.draw(st.integers(0, 4)))]
-                L.append(f"{n}.flash_pattern({pat!r}, {small(5)})")
+                vals = [0, 1, 2, 128, 255, 7] + ([256, 300, 1000, -1, -300, 511] if self.clamp else [])
+                pat = [self.draw(st.sampled_from(vals)) for _ in range(self.draw(st.integers(0, 4)))]
+                items = ", ".join(str(v) if 0 <= v <= 255 else f"__CL({v};0;255)__" for v in pat)
+                L.append(f"{n}.flash_pattern([{items}], {small(5)})")
             else:
                 L.append(f"mon.write({n}.{self.draw(st.sampled_from(['get_state()', 'get_brightness()']))})")
                 if n in self.changed:
@@ -206,6 +209,25 @@ class M:
         self.changed.add(n)
 
 
+_CL = re.compile(r"__CL\(([^;()]+);([^;()]+);([^;()]+)\)__")
+
+
+def render_clamp(src, clamped):
+    """Out-of-range arguments are written as __CL(raw;lo;hi)__: the raw script passes `raw`, its twin passes the documented clamp of it
+    (a literal for literals, min(max(raw, lo), hi) for run-time values). Both must drive the pins identically."""
+    def rep(m):
+        raw, lo, hi = m.group(1), m.group(2), m.group(3)
+        if not clamped:
+            return raw
+        try:
+            v = float(raw)
+        except ValueError:
+            return f"min(max({raw}, {lo}), {hi})"
+        c = min(max(v, float(lo)), float(hi))
+        return repr(c) if ("." in lo or "." in raw) else str(int(c))
+    return _CL.sub(rep, src)
+
+
 @st.composite
 def history(draw, clamp=False, ntapes=3):
     m = M(draw, clamp)
@@ -259,7 +281,7 @@ def clamp_monitor(case, trace):
 
 def evaluate(case, one_tape=None):
     """Returns (status, failures)."""
-    src, n = case["src"], case["n"]
+    src, n = render_clamp(case["src"], False), case["n"]
     mk = lambda b, e, o, tape: {"bucket": b, "case": dict(case, tapes=[tape]), "expected": str(e), "observed": str(o)}
     try:
         cpp = fb.transpile(src)
@@ -271,6 +293,12 @@ def evaluate(case, one_tape=None):
             exe = fb.build(cpp, wd, asan=case["clamp"])
         except fb.CompileError as e:
             return "FAIL", [mk("compile-error:" + diff.norm_err(str(e)), "compiles", str(e)[:300], tapes[0])]
+        exe2 = None
+        if case["clamp"] and "__CL(" in case["src"]:
+            try:
+                exe2 = fb.build(fb.transpile(render_clamp(case["src"], True)), wd, name="twin")
+            except (ValueError, fb.CompileError):
+                exe2 = None  # the in-range twin is rejected / does not build: no verdict from the pair (the monitor still applies)
         for tape in tapes:
             tp = {"analog": {16: tape}}
             trace = fb.run(exe, n, fb.make_tape(analog={16: tape}), wd)
@@ -280,6 +308,14 @@ def evaluate(case, one_tape=None):
                 bad = clamp_monitor(case, trace)
                 if bad:
                     return "FAIL", [mk(bad[0], bad[1], bad[2], tape)]
+                if exe2 is not None:
+                    t2 = fb.run(exe2, n, fb.make_tape(analog={16: tape}), wd)
+                    a = [x[1:] for x in tc._collapse(tc.fw_obs(trace), drop_reads=False, side="fw")]
+                    b = [x[1:] for x in tc._collapse(tc.fw_obs(t2), drop_reads=False, side="fw")] if t2.status == "ok" else None
+                    if b is not None and a != b:
+                        i = next((i for i, (x, y) in enumerate(zip(a, b)) if x != y), min(len(a), len(b)))
+                        return "FAIL", [mk("not-clamped-to-documented-limit", f"same pin activity as the script with pre-clamped arguments: event {i} {b[i] if i < len(b) else None}",
+                                            f"{a[i] if i < len(a) else None}", tape)]
                 continue
             host = hx.run_host(src, n, tp, {"instrument": False})
             if "error" in host:
@@ -311,7 +347,7 @@ def run_shard(name, seed, tier, clamp, n, ntapes):
         r.count(("clamp:" if clamp else "sim:") + status.split(":")[0])
         if status.startswith(("rejected", "not-well")):
             r.count(status)
-        r.case({"src": case["src"], "n": case["n"], "tapes": case["tapes"][:1]} if len(r.samples) < 1 else {"h": hash(case["src"]) & 0xffffffff}, status == "ok" and case["nt"])
+        r.case({"src": render_clamp(case["src"], False), "n": case["n"], "tapes": case["tapes"][:1]} if len(r.samples) < 1 else {"h": hash(case["src"]) & 0xffffffff}, status == "ok" and case["nt"])
         r.count("runs", len(case["tapes"]) if status == "ok" else 1)
         for fl in fails:
             if fl["bucket"] not in found or len(case["src"]) < len(found[fl["bucket"]]["case"]["src"]):
